@@ -522,7 +522,7 @@ fn c15_hamming(c: &mut Case) -> Result<(), String> {
     let extra = c.rng.below(70);
     let back1 = c.rng.bases(len + extra, 4);
     // half of the time through the exact-capacity constructor, and often ending exactly at the end
-    let ds1 = if c.rng.chance(1, 2) {
+    let mut ds1 = if c.rng.chance(1, 2) {
         DnaString::from_bytes(&back1)
     } else {
         DnaString::from_acgt_bytes(&back1.iter().map(|b| b"ACGT"[*b as usize]).collect::<Vec<u8>>())
@@ -598,10 +598,8 @@ fn c15_hamming(c: &mut Case) -> Result<(), String> {
     // the same windows once more after the left string was edited in place (same address, same
     // length): the distance must follow the contents
     if len > 0 {
-        let mut ds1m = ds1.clone();
+        // (edited in place: the string object stays where it is)
         let mut ma2 = ma.clone();
-        let mut ds1 = ds1;
-        let _ = &mut ds1m;
         let edits = c.rng.range(1, 40);
         for _ in 0..edits {
             let q = c.rng.below(len);
